@@ -1349,7 +1349,8 @@ register('C14', [l1_suite(['rows', 'plain', 'cb'], name='l1f', quick=250,
                                         determined_result_monitor('under a storage fault an operation neither failed nor returned the complete, correct result'))),
                  l2_suite('faults', name='l2-faults', quick=80, thorough=1500,
                           determined='after storage faults a connection reads other rows than the statements that succeeded explain'),
-                 l2_suite('deadline', name='l2-deadline', quick=1, thorough=1, native=False)],
+                 l2_suite('deadline', name='l2-deadline', quick=1, thorough=1, native=False),
+                 l2_suite('vacuum', native=False, extra_monitor=c09_monitor, name='l2-vacuum', quick=20, thorough=400)],
          ['kv level: faults in the in-process store; SQL level: one-shot HTTP 403 answers of the S3 endpoint during a statement; hangs are bounded by the harness timeout'])
 # ---------------------------------------------------------------- C18 (node encryption)
 def c18_monitor(ctx, res, fn, case, impl, model, spec):
